@@ -729,6 +729,34 @@ func (g *Group) choosePerm(site, n int) []int {
 }
 
 // ---------------------------------------------------------------------------------------------
+// R9: pointer-to-integer conversion. The numeric order of the addresses of distinct allocations is unspecified
+// (and changes from run to run with GC and allocator state): the simulator hands out injective fake addresses,
+// ascending by first use under the identity resolution, descending under "reverse", scrambled when seeded.
+
+func Addr(p unsafe.Pointer) uintptr {
+	t := cur
+	if t == nil || p == nil {
+		return uintptr(p)
+	}
+	g := t.G
+	seq, ok := g.allocSeq[p]
+	if !ok {
+		g.nextAlloc++
+		seq = g.nextAlloc
+		g.allocSeq[p] = seq
+	}
+	g.ev(9<<40, seq)
+	switch g.cfg.Adv {
+	case "", "identity", "overrides":
+		return uintptr(0xc000000000 + seq*256)
+	case "reverse":
+		return uintptr(0xc0ff000000 - seq*256)
+	}
+	odd := (Mix(g.cfg.AdvSeed, 99) | 1) & 0xffffffff
+	return uintptr(0xc000000000 + ((seq*odd)&0xffffffff)*256)
+}
+
+// ---------------------------------------------------------------------------------------------
 // R4: clock and entropy
 
 func (g *Group) nowNs() int64 { return g.cfg.T0 + int64(g.Ticks)*1000 + g.clockExtra }
